@@ -254,9 +254,9 @@ func hex(n, width int, upper bool) string {
 
 func c07Fragments(n int) []string {
 	all := []string{
-		"a", " ", "\\n", "\\\\", "\\'", "\\\"", "'", "\"", "\\x41", "\\x31", "\\u0038", "\\0", "\\x22", "\\x27", "\\x5c", "\\x0a", "\\xe9", "\\u0041",
+		"a", " ", "\\n", "\\\\", "\\'", "\\\"", "'", "\"", "\\x41", "\\x31", "\\u0038", "\\0", "\\u{31}", "\\x22", "\\x27", "\\x5c", "\\x0a", "\\xe9", "\\u0041",
 		"\\u0022", "\\u005C", "\\u000A", "\\u00e9", "\\u20AC", "\\uD83D", "\\uDE00", "\\u{41}", "\\u{1F600}", "\\u{22}", "\\u{0005c}",
-		"\\t", "\\r", "\\0", "\\b", "\\v", "\\f", "\\\n", "\\\r\n", "é", "€", "😀", "$", "{", "}", "`", "//", "/*", ";", "\\x", "\\u",
+		"\\t", "\\r", "\\u{000037}", "\\b", "\\v", "\\f", "\\\n", "\\\r\n", "é", "€", "😀", "$", "{", "}", "`", "//", "/*", ";", "\\x", "\\u",
 		"\\u{", "\\u00", "\\xZ", "\\a", "\\1", "\\8", "0", "\t", "\\u2028", "\\u{2029}", "\\x7f", "\\x80", "\\xff", "\\u{10FFFF}", "\\u{D800}",
 	}
 	if n < len(all) {
@@ -395,6 +395,27 @@ func c07Run(c *core.Ctx) {
 		}
 		b.flush()
 	}
+
+	// decoded-escape neighbours: every printable ASCII character in each escaped spelling (\xHH, \uHHHH, \u{H..}, \u{00HH..}),
+	// directly after each context that gives a following character a meaning (\0 and an octal-looking escape, an escaped
+	// and a hex-escaped backslash, a plain letter) and directly before a digit, a letter or the end: whether an escape is
+	// kept or decoded, its neighbours must not read it (or what it decodes to) as part of themselves
+	b = B("decoded-escape-neighbours")
+	for v := 0x20; v < 0x7f; v++ {
+		for _, sp := range []string{"\\x" + hex(v, 2, false), "\\u" + hex(v, 4, true), "\\u{" + hex(v, 2, false) + "}", "\\u{" + hex(v, 6, true) + "}"} {
+			for _, pre := range []string{"\\0", "\\\\", "\\x5c", "\\u{5C}", "a", ""} {
+				for _, post := range []string{"", "1", "a"} {
+					if !c.Thorough() && post == "a" && pre != "\\0" {
+						continue
+					}
+					for _, q := range quotes {
+						b.add(wrap(q, pre+sp+post))
+					}
+				}
+			}
+		}
+	}
+	b.flush()
 
 	// backtick strings
 	b = B("backtick")
